@@ -54,7 +54,7 @@ def oracle_vd(it, tp):
         met_strict.append(z3.And(g, ok, strict >= val))
     type_bound = z3.Implies(wfU, Ud['type'].eq_sym(name))
     mode_ok = spec_over(tp['gpg'], lambda v: v is True or v is False or (isinstance(v, (int, float)) and not isinstance(v, bool) and v in (0, 1)))
-    return dict(wfT=wfT, wfU=wfU, found=zor(found), type_bound=type_bound, mode=mode, mode_ok=mode_ok, name_is_str=name_is_str,
+    return dict(wfT=wfT, wfU=wfU, found=zor(found), type_bound=type_bound, mode=mode, mode_ok=mode_ok, name_is_str=name_is_str, sig_ok_lib=zor(met_lib),
                 accept_lib=z3.And(name_is_str, wfT, zor(met_lib), type_bound),
                 accept_strict=z3.And(name_is_str, mode_ok, wfT, zor(met_strict), type_bound))
 
@@ -128,7 +128,7 @@ def factory_vd(ns, props, relational=False, **kw):
                     else:
                         argsok = z3.And(o['name_is_str'], o['mode_ok'], o['wfT'])
                         if not exc_in(out, ('MetadataVerificationError',)):
-                            obs.append(oblige(eng, 'type-for-role mismatch is a metadata verification error', z3.And(argsok, z3.Not(o['type_bound'])), mk))
+                            obs.append(oblige(eng, 'type-for-role mismatch (role delegated, signatures in order) is a metadata verification error', z3.And(argsok, z3.Not(o['type_bound']), o['sig_ok_lib']), mk))
                         if not exc_in(out, ('UnknownRoleError',)):
                             obs.append(oblige(eng, 'undelegated role is an unknown-role error', z3.And(argsok, o['type_bound'], z3.Not(o['found'])), mk))
             if 'C12' in props and mutated:
@@ -289,7 +289,7 @@ def judge_vd(case, obs, props):
             if not CC.documented(oc):
                 return f'verify_delegation raised {oc["cls"]}, outside the documented error families'
             if wfT and isinstance(name, str) and mode_ok:
-                if not type_ok and 'MetadataVerificationError' not in oc['mro']:
+                if not type_ok and role is not None and thr_int and lib >= role['threshold'] and 'MetadataVerificationError' not in oc['mro']:
                     return f'type-for-role mismatch reported as {oc["cls"]} instead of MetadataVerificationError'
                 if type_ok and role is None and 'UnknownRoleError' not in oc['mro']:
                     return f'undelegated role reported as {oc["cls"]} instead of UnknownRoleError'
@@ -399,8 +399,8 @@ def factory_vr(ns, props, **kw):
                     if not documented(out):
                         obs.append(oblige(eng, 'rejections use the documented error families', True, mk))
                     elif not exc_in(out, ('MetadataVerificationError',)):
-                        obs.append(oblige(eng, 'root version mismatch is a metadata verification error',
-                                          z3.And(o['wfT'], o['wfU'], o['both_root'], o['hasT'], o['hasU'], z3.Not(o['succ'])), mk))
+                        obs.append(oblige(eng, 'root version mismatch (everything else in order) is a metadata verification error',
+                                          z3.And(o['wfT'], o['wfU'], o['both_root'], o['hasT'], o['hasU'], z3.Not(o['succ']), o['libT'], o['libU']), mk))
             if ('C12' in props or 'C04' in props) and any(e['kind'] == 'arg_mutation' for e in eng.events):
                 obs.append(oblige(eng, 'verification does not modify its arguments', True, mk))
             w = mk(m)
@@ -467,7 +467,7 @@ def judge_vr(case, obs, props):
         if 'C13' in props:
             if not CC.documented(oc):
                 return f'verify_root raised {oc["cls"]}, outside the documented error families'
-            if ok_pre and not succ and 'MetadataVerificationError' not in oc['mro']:
+            if ok_pre and not succ and lib_ok and 'MetadataVerificationError' not in oc['mro']:
                 return f'root version mismatch reported as {oc["cls"]} instead of MetadataVerificationError'
     if ('C12' in props or 'C04' in props) and not obs.get('unchanged', True):
         return 'verify_root modified its arguments'
